@@ -25,6 +25,7 @@ import (
 	"mycoverif/ident"
 	"mycoverif/node"
 	"mycoverif/simnet"
+	"mycoverif/simos"
 	"mycoverif/simtcp"
 )
 
@@ -196,6 +197,44 @@ func run(e *core.Env) {
 				}
 			}
 		}
+	}
+
+	// Wave 15: a state file is a valid setting of a relay-only router too. Half of the routers
+	// keep their state in a JSON file on the simulated disk (it survives the cycles, as a disk
+	// does); a third of those have been started and stopped once before, offline - a first boot
+	// that met nobody - so that their first cycle here starts from the file such a boot leaves.
+	simos.Reset()
+	for i := range stores {
+		if tp.Chance(1, 2) {
+			stores[i].System.StatePath = fmt.Sprintf("/var/lib/mycoria/relay%d.json", i)
+			e.Probe("router_with_state_file")
+		}
+	}
+	for i := range stores {
+		if stores[i].System.StatePath == "" || !tp.Chance(1, 3) {
+			continue
+		}
+		cfg, err := stores[i].Parse()
+		if err != nil {
+			e.Fail("valid-configuration-refused", "router %d: configuration with a state file refused: %v", i, err)
+		}
+		var in *mycoria.Instance
+		if e.Guard("panic-in-New", func() { in, err = mycoria.New("sim-offline", cfg) }) {
+			e.Fail("", "")
+		}
+		if err != nil {
+			e.Fail("construct-fails", "mycoria.New for a valid relay-only config with a state file failed: %v", err)
+		}
+		if err := in.Start(); err != nil {
+			e.Fail("start-fails", "Start of instance r%d (offline boot) failed: %v", i, err)
+		}
+		time.Sleep(time.Duration(tp.Intn(3000)) * time.Millisecond) // nothing is delivered: nobody is there
+		if !in.Stop() {
+			e.Fail("stop-reports-failure", "offline boot: Stop of instance r%d returned false", i)
+		}
+		cn.CloseAll()
+		simnet.Wait()
+		e.Probe("offline_boot_before_the_first_cycle")
 	}
 
 	baseline := -1
